@@ -114,8 +114,8 @@ def car_run(ctx, f, cfg):
             ("w0", "solo_working"): Const(cfg["aw"] == "solo"), ("f0", "solo_working"): Const(cfg["af"] == "solo"),
             ("self", "allocated_worker_list"): ListV([] if cfg["aw"] == "none" else [w0]),
             ("self", "allocated_facility_list"): ListV([] if cfg["af"] == "none" else [f0]),
-            ("self", "fixing_allocating_worker_id_list"): {"none": Const(None), "in": ListV([Const("W")]), "out": ListV([Const("X")])}[cfg["fix_w"]],
-            ("self", "fixing_allocating_facility_id_list"): {"none": Const(None), "in": ListV([Const("F")]), "out": ListV([Const("X")])}[cfg["fix_f"]]}
+            ("self", "fixing_allocating_worker_id_list"): {"none": Const(None), "in": ListV([Const("W")]), "out": ListV([Const("X")]), "empty": ListV([])}[cfg["fix_w"]],
+            ("self", "fixing_allocating_facility_id_list"): {"none": Const(None), "in": ListV([Const("F")]), "out": ListV([Const("X")]), "empty": ListV([])}[cfg["fix_f"]]}
     if cfg["fac"] != "none":
         heap[("F", "solo_working")] = Const(cfg["fac"] == "solo")
         heap[("F", "assigned_task_list")] = ListV([Obj("other", TASK)] if cfg["busy"] else [])
@@ -138,10 +138,10 @@ def car_expected(cfg):
     ok = cfg["state"] in ("READY", "WORKING", "WORKING_ADDITIONALLY")
     ok = ok and cfg["aw"] != "solo" and cfg["af"] != "solo"
     ok = ok and not (cfg["w_solo"] and cfg["aw"] != "none")
-    ok = ok and cfg["fix_w"] != "out" and cfg["w_skill"]
+    ok = ok and cfg["fix_w"] not in ("out", "empty") and cfg["w_skill"]   # (an empty list of allowed IDs allows nobody)
     if cfg["fac"] != "none":
         ok = ok and not (cfg["fac"] == "solo" and cfg["af"] != "none")
-        ok = ok and cfg["fix_f"] != "out" and not cfg["busy"] and cfg["f_skill"] and cfg["wf_skill"]
+        ok = ok and cfg["fix_f"] not in ("out", "empty") and not cfg["busy"] and cfg["f_skill"] and cfg["wf_skill"]
     return ok
 
 
@@ -152,7 +152,7 @@ def r4_2(ctx):
         "state": [s for s in ctx.repo.enums[TS]],
         "aw": ["none", "plain", "solo"], "af": ["none", "plain", "solo"],
         "w_solo": [False, True], "fac": ["none", "plain", "solo"],
-        "fix_w": ["none", "in", "out"], "fix_f": ["none", "in", "out"], "busy": [False, True],
+        "fix_w": ["none", "in", "out", "empty"], "fix_f": ["none", "in", "out", "empty"], "busy": [False, True],
         "w_skill": [True, False], "f_skill": [True, False], "wf_skill": [True, False],
     }
     base_nf = {"state": "READY", "aw": "none", "af": "none", "w_solo": False, "fac": "none", "fix_w": "none", "fix_f": "none", "busy": False,
